@@ -299,6 +299,8 @@ def _schedule_env(case):
         res, out, err, prompts, obs = result
         started = [v for k, v in obs if k == 'child_started']
         helper_exc = [v for k, v in obs if k == 'helper_exception']
+        if res[0] == 'seam' or any(k == 'seam' for k, v in obs):
+            return 'seam'      # the shim cannot stand in for what the runner now uses: skipped, never a violation
         if res[0] != 'ok':
             return [Violation('schedule.' + res[0], sc, {'detail': res[1]})]
         if helper_exc:
@@ -331,7 +333,8 @@ def eval_schedules(case):
             again, _ = run_one(case['schedule'])
             if again[:4] != result[:4]:
                 raise HarnessError('schedule replay is not deterministic for %r' % (case,))
-            return Eval(judge(result, case), transitions=1)
+            j = judge(result, case)
+            return Eval([] if j == 'seam' else j, transitions=1)
         first = True
         for trace, result, S in sched.explore_schedules(run_one, case['bound']):
             nsched += 1
@@ -342,7 +345,10 @@ def eval_schedules(case):
                     raise HarnessError('schedule replay is not deterministic for %r' % (case,))
                 first = False
             outcomes.add((result[0], result[1]))
-            V += judge(result, dict(case, schedule=trace))
+            j = judge(result, dict(case, schedule=trace))
+            if j == 'seam':
+                return Eval([], outcome='seam_missing', nontrivial=False, transitions=nsched)
+            V += j
             if len(V) >= 3:
                 break
     except sched.BadChoice as e:
